@@ -41,7 +41,7 @@ def cases(draw):
             **({"prior": prior} if prior is not None else {}),
             "preload": draw(st.sampled_from([False, False, True])), "u": [draw(st.floats(0, 1, exclude_max=True)) for _ in range(3)],
             "via": draw(st.sampled_from(["api", "api", "cli"])),
-            "src_form": draw(st.sampled_from(["str", "str", "path", "bytes", "fileobj", "nofd", "blob", "blob"])),
+            "src_form": draw(st.sampled_from(["str", "str", "path", "bytes", "fileobj", "nofd", "blob", "blob", "relative"])),
             "out_form": draw(st.sampled_from(["str", "str", "path"]))}
 
 
@@ -74,7 +74,10 @@ def run_case(case, ctx):
         opened = []
         form = case.get("src_form") or "str"
         backend = iomodel.CountingFile(sgz) if form == "nofd" else iomodel.CountingBlob(sgz) if form == "blob" else None
-        c = SgzConverter(backend if backend is not None else ops.in_form(sgz, form, opened), preload=bool(case.get("preload")))
+        if form == "relative":
+            c = ops.open_relative(SgzConverter, sgz, preload=bool(case.get("preload")))
+        else:
+            c = SgzConverter(backend if backend is not None else ops.in_form(sgz, form, opened), preload=bool(case.get("preload")))
         try:
             with conv.env.quiet():
                 u = case.get("u", [0.5, 0.5, 0.5])
